@@ -2,41 +2,17 @@
    Gen/TimePatternGen.v: from_string, match, union.  No proofs here. *)
 From Coq Require Import ZArith String Ascii List Bool.
 From Bardolph Require Import Base.PyStr Gen.CharClasses Gen.TimePatternGen.
-From Bardolph Require Export Time.TimeSpec.
+From Bardolph Require Export Time.TimeSpec Time.TimeCore.
 Open Scope string_scope.
 Open Scope list_scope.
 Import ListNotations.
 Open Scope Z_scope.
 Open Scope bool_scope.
 
-(* ---------- the pattern object ---------- *)
-
-(* A pattern value is a list of alternatives, each an (hour set, minute set)
-   pair.  The pinned representation (one pair, sets merged by union) and the
-   repaired one (list of alternatives) are both expressed in it; which one is in
-   force is read off the source by the translator (shape_* booleans). *)
-Definition tp := list (list Z * list Z).
-
 Definition tp_new (hours minutes : string) : tp :=
   [(init_hour_set hours, init_minute_set minutes)].
 (* TimePattern(None, None): matches nothing *)
 Definition tp_empty : tp := [([], [])].
-
-Definition alt_match (a : list Z * list Z) (h m : Z) : bool := zmem h (fst a) && zmem m (snd a).
-
-Definition tp_match (p : tp) (h m : Z) : bool :=
-  if shape_repr_alternatives then existsb (fun a => alt_match a h m) p
-  else match p with
-       | [a] => alt_match a h m
-       | _ => false
-       end.
-
-Definition tp_union (p q : tp) : tp :=
-  if shape_repr_alternatives then (p ++ q)%list
-  else match p, q with
-       | [(h1, m1)], [(h2, m2)] => [((h1 ++ h2)%list, (m1 ++ m2)%list)]
-       | _, _ => p
-       end.
 
 (* from_string: None models Python's None (the compiler then reports a bad
    time specification); on the pinned tree the function returned an empty
@@ -49,5 +25,4 @@ Definition from_string (s : string) : option tp :=
   | None => if shape_from_string_none then None else Some tp_empty
   end.
 
-(* `time at p1 or p2 ...`: TIME_PATTERN INIT p1 ; TIME_PATTERN UNION p2 ; ... *)
-Definition tp_union_all (p : tp) (ps : list tp) : tp := fold_left tp_union ps p.
+
